@@ -249,3 +249,20 @@ Proof.
   intros [E|Hin]; [inversion E; subst; exact W|].
   eapply IH; [|exact Hin]. rewrite step_faces. destruct e; try exact W; [apply add_face_nodup, W|apply del_face_nodup, W].
 Qed.
+
+(* a packet whose arrival face is not (or no longer) in the face table — e.g. removed between queueing and processing — is
+   dropped: state unchanged, nothing sent *)
+Lemma unknown_face_dropped s now ch :
+  (forall i, get_face (faces s) (i_face i) = None ->
+     r_st (step s (EInterest now i) ch) = s /\ r_outs (step s (EInterest now i) ch) = []) /\
+  (forall d, get_face (faces s) (d_face d) = None ->
+     r_st (step s (EData now d) ch) = s /\ r_outs (step s (EData now d) ch) = []).
+Proof.
+  split.
+  - intros i Hg. cbn [step]. unfold step_interest. rewrite Hg. split; reflexivity.
+  - intros d Hg. cbn [step]. unfold step_data.
+    assert (T : forall t, r_st (step_data_thread s now d t) = s /\ r_outs (step_data_thread s now d t) = [])
+      by (intros t; unfold step_data_thread; rewrite Hg; split; reflexivity).
+    destruct (data_token (d_tok d)) as [[th tk]|]; [|apply T].
+    destruct (th =? tid s); [apply T|split; reflexivity].
+Qed.
